@@ -88,6 +88,38 @@ CLAIMED = {
          "Magnitudes above 2^22 are extrapolated from measured scaling; time is represented by bytes requested plus the supervising watchdog. The known findings need a new limit/policy in pushr and are recorded, not repaired.",
          "DESIGN.md section 4, C15"),
 }
+
+# additions made after the first build (sub-checks that were added later); appended to the texts above
+INCTX = " Additionally whole programs over the RAND-free registry on generated states run in lock-step with the reference interpreter (sub-check in-program-context: the operand states are the ones executions reach) and, in the thorough tier, a coverage-guided libFuzzer campaign (target lockstep_ref, same oracle, 10^6 executions) searches for mismatches at the instructions this property owns."
+ADDENDA = {
+ "C01": ("; GRAPH.* instruction histories; libFuzzer target exec_program (thorough)", " GRAPH.* instruction histories (stacked graphs that share node ids) are executed crash-only; the thorough tier adds a libFuzzer campaign (exec_program)."),
+ "C02": ("; run() on custom / never-loaded instruction sets; command-line front end's copy onto CODE", " Further sub-checks: a slow step under a short time limit must end with TimeLimitExceeded; run() equals stepping on never-loaded and hand-registered instruction sets and leaves the caller's set unchanged; the pushr binary's first trace shows CODE = EXEC for multi-item texts; PushState::size() accounting."),
+ "C03": ("; libFuzzer target parse_text with a token dictionary (thorough)", " Names that spell an instruction in another letter case, tokens around 255 bytes with multi-byte characters, integers with leading zeros; parsing with an empty registry and again with the full one on the same thread; nesting up to 700 levels compared structurally."),
+ "C04": ("; lock-step in program context (generated + libFuzzer lockstep_ref)", INCTX),
+ "C05": ("; lock-step in program context (generated + libFuzzer lockstep_ref)", " Stack depths 999..1030 and items above 100 points are part of the grid." + INCTX),
+ "C06": ("; lock-step in program context (generated + libFuzzer lockstep_ref)", " Counted EXEC.Y loops are part of the grammar; single steps also run with operands above 100 points and tiny configured limits." + INCTX),
+ "C07": ("; parse path; lock-step in program context (generated + libFuzzer lockstep_ref)", " Every generated program is also printed and parsed (names that resemble instructions must come back as names)." + INCTX),
+ "C08": ("; lock-step in program context (generated + libFuzzer lockstep_ref)", " Built cases: self-similar SUBST operands, twin chains nested 9..18 levels, floats below the printed precision, signed zeros." + INCTX),
+ "C09": ("; lock-step in program context (generated + libFuzzer lockstep_ref)", " The grid also holds lengths 12..100 with 15 offsets." + INCTX),
+ "C11": ("; deep and wide programs; registry independence; libFuzzer target roundtrip_text (thorough)", " Combs nested up to 300 levels, lists and top levels of up to 30 000 items, user-registered instruction names, the same text parsed with an empty and then the full registry; thorough: libFuzzer target roundtrip_text (any text s: parse(print(parse s)) = parse s)."),
+ "C12": ("", " Instruction lists include a caller's own list (not upper case, unsorted, with a duplicate), judged as supplied; binding tables are renamed per work item."),
+ "C13": ("", " Also sizes 65 536 / 65 537 / 100 000 and FLOAT.RAND intervals a few ulps wide."),
+ "C14": ("", " Jobs carry an 8 s interpreter time limit (a job that no longer ends by its step limit ends differently instead of hanging); jobs comparing code nested 50..400 levels expose state left on a thread; single-instruction jobs over the boundary pools; fresh-process reverse-order leg."),
+ "C15": ("; CPU time per step; nesting-depth sweep", " Now: magnitudes up to 2^31-1 on three base states (a sweep stops at its first failure), FLOAT operand magnitudes, thread CPU time per step <= 0.4 s, and every instruction with a CODE/EXEC operand on code nested 4..128 levels deep."),
+ "C16": ("; deep stacks; extreme positions", " Positions up to usize::MAX, item twins that print alike, and stacks of up to 25 000 (thorough 300 000) items filled by push / push_front / push_vec."),
+ "C17": ("; lock-step in program context (generated + libFuzzer lockstep_ref)", " Registered INPUT.* / OUTPUT.* names beyond the documented eight must not drop or reorder the other queue's pending messages." + INCTX),
+ "C18": ("", " Weights include values one ulp apart, infinities, NaN and signed zeros; a ReAddEdge operation."),
+ "C19": ("; lock-step in program context (generated + libFuzzer lockstep_ref)", " Records hold INDEX literals and non-finite floats." + INCTX),
+ "C20": ("; large topologies; random-order queries; lock-step in program context", " Lines of up to 300 000 cells, squares / cubes of 100 000 cells and 12 dimensions against the brute-force ball; query sequences in random order on one thread." + INCTX),
+}
+NOTE_FIX = {
+ "C11": "Trusted: the parser as inverse is the subject, nothing else; the concrete print format is not part of the property (a difference from the commented format is only counted). Vector / INDEX / GRAPH literals and names with blanks are outside the property's language.",
+ "C15": "Time is the thread CPU time of the step (limit 0.4 s on states of a few dozen cells) plus the supervising watchdog for hangs. The known findings need a new limit/policy in pushr and are recorded, not repaired.",
+}
+for k, (t, x) in ADDENDA.items():
+    tech, text, note, ref = CLAIMED[k]
+    CLAIMED[k] = (tech + t, text + x, NOTE_FIX.get(k, note), ref)
+
 PENDING_REASON = "check not built yet in this round (work in progress, see DESIGN.md section 4 for the planned check)"
 
 checks = []
